@@ -185,7 +185,7 @@ def scn_linear(T, case):
 
 # ------------------------------------------------------------------------------------ results: constraint info and evaluations
 def cases_results(tier):
-    for which in ("s", "so"):
+    for which in ("s", "so", "o"):
         for lin in (False, True):
             yield "%s/linear=%s" % (which, lin), {"which": which, "lin": lin}
 
@@ -251,11 +251,66 @@ def scn_chain_requests(T, case):
     scn_requests(T, case)
 
 
+# ------------------------------------------------------------------------------------ the configured linear constraints object
+ML = "ropt.config.enopt._linear_constraints_config"
+MCU = "ropt.config.utils"
+
+
+def cases_linear_config(tier):
+    for n in (1, 2) + ((3,) if tier == "thorough" else ()):
+        for lk, uk in (("fin", "fin"), ("-inf", "fin"), ("fin", "+inf")):
+            yield "vars%d/%s/%s" % (n, lk, uk), {"n": n, "lk": lk, "uk": uk}
+
+
+def scn_linear_config(T, case):
+    """LinearConstraintsConfig.apply_transformation: the user's (validated, frozen) object stays in the user domain - it may be used
+    in several configurations with different transforms - and each application yields the constraints of THAT transform."""
+    n = case["n"]
+    if T.symbolic:
+        sh = T.shadow([MV, MCU, ML])
+        for q in ("to_optimizer", "linear_constraints_to_optimizer"):
+            T.under_contract(sh, MV, "VariableScaler." + q)
+        cls = T.under_contract(sh, ML, "LinearConstraintsConfig")
+        T.under_contract(sh, ML, "LinearConstraintsConfig.apply_transformation")
+        imm = sh.get(MCU, "immutable_array")
+    else:
+        cls = T.func(ML, "LinearConstraintsConfig")
+        imm = T.func(MCU, "immutable_array")
+    A = T.real("A", (1, n))
+    T.assume(T.any([~T.same(A[0, i], 0.0 * A[0, i]) if T.symbolic else A[0, i] != 0 for i in range(n)]))
+    lb = T.real("lb", (1,), kinds=np.array([case["lk"]], dtype=object))
+    ub = T.real("ub", (1,), kinds=np.array([case["uk"]], dtype=object))
+    T.assume(T.all(lb <= ub))
+    me = cls.model_construct(coefficients=imm(A), lower_bounds=imm(lb), upper_bounds=imm(ub))
+    me._immutable()
+    variables = types.SimpleNamespace(initial_values=np.zeros(n))
+    x = T.real("x", (n,))
+    v = T.total([A[0, i] * x[i] for i in range(n)])
+    ok = (lb[0] <= v) & (v <= ub[0])
+    if not T.symbolic:
+        T.assume(abs(float(v) - float(lb[0])) > 1e-9 * (1 + abs(float(v))) and abs(float(v) - float(ub[0])) > 1e-9 * (1 + abs(float(v))))
+    for k, given in enumerate((False, True)):
+        if given:
+            s, o = T.const(np.array([2.0, 0.5, 4.0][:n])), T.real("offsets_2", (n,))
+        else:
+            s, o = T.real("scales_1", (n,), lo=0.01, hi=100.0) if n == 1 else T.const(np.array([0.25, 3.0, 1.5][:n])), None
+        sc = _scaler(T, s, o)
+        out = me.apply_transformation(variables, types.SimpleNamespace(variables=sc))
+        T.prove("C11.linear_config.the_user_object_is_not_changed", T.same(me.coefficients, A) & T.same(me.lower_bounds, lb) & T.same(me.upper_bounds, ub), "application %d" % (k + 1))
+        xh = sc.to_optimizer(x)
+        vh = T.total([out.coefficients[0, i] * xh[i] for i in range(n)])
+        okh = (out.lower_bounds[0] <= vh) & (vh <= out.upper_bounds[0])
+        T.prove("C11.linear_config.point_feasible_iff_image_feasible_for_the_constraints_of_this_transform", T.all([T.implies(ok, okh), T.implies(okh, ok)]), "application %d" % (k + 1))
+    same = me.apply_transformation(variables, None)
+    T.prove("C11.linear_config.without_transform_the_constraints_are_the_user_domain_ones", T.same(same.coefficients, A) & T.same(same.lower_bounds, lb) & T.same(same.upper_bounds, ub))
+
+
 SCENARIOS = [
     Scenario("evaluator_requests_in_user_coordinates", scn_chain_requests, cases_chain_requests, {"quick": 3, "thorough": 20}),
     Scenario("scaler_round_trip_and_bounds", scn_scaler, cases_scaler, {"quick": 10, "thorough": 100}),
     Scenario("request_invariance", scn_requests, cases_requests, {"quick": 20, "thorough": 200}),
     Scenario("linear_constraints", scn_linear, cases_linear, {"quick": 10, "thorough": 100}),
+    Scenario("linear_constraints_config_object", scn_linear_config, cases_linear_config, {"quick": 10, "thorough": 100}),
     Scenario("results_back_transform", scn_results, cases_results, {"quick": 10, "thorough": 100}),
 ]
 
